@@ -1225,3 +1225,188 @@ func c20R5(c *Ctx, r *Report) {
 	r.Check(okHdr, rule, wsec.Name(), "header written for every section except a non-empty default", c.pos(wsec.Decl.Pos()),
 		"an empty default table is written as nothing at all and is missing from the parsed result")
 }
+
+// ---- C19.R7: column arithmetic is per character ------------------------------------------------------------
+
+func init() {
+	lateInits = append(lateInits, func() {
+		props["C19"].Quick = append(props["C19"].Quick, c19R7)
+		props["C19"].Explanation += " (R7) Position.Advance adds to Column an amount that depends on the character alone (1, or the tab width), never on the preceding character; the current tree's exception after a tab is a recorded finding pinned by the repository's own test."
+	})
+}
+
+func c19R7(c *Ctx, r *Report) {
+	const rule = "C19.R7"
+	r.Describe(rule, "source.Position.Advance: every update of Column sits directly in a case of the switch on the decoded character, not under a further condition (a column increment that depends on the previous character makes the column of a token depend on how the blanks before it are composed)")
+	pa := c.LookupFn(pkgSource, "(*Position).Advance")
+	col := c.fieldObj(pkgSource, "Position", "Column")
+	if !r.Anchor(rule, pa != nil && col != nil, "source.Position.Advance / Column") {
+		return
+	}
+	info := pa.Info()
+	n := 0
+	walkWithStack(pa.Decl.Body, func(x ast.Node, stack []ast.Node) bool {
+		isUpd := false
+		switch s := x.(type) {
+		case *ast.IncDecStmt:
+			isUpd = fieldOf(info, s.X) == col
+		case *ast.AssignStmt:
+			for _, l := range s.Lhs {
+				if fieldOf(info, l) == col {
+					isUpd = true
+				}
+			}
+		}
+		if !isUpd {
+			return true
+		}
+		n++
+		cond := ""
+		for _, a := range stack {
+			if ifs, ok := a.(*ast.IfStmt); ok {
+				cond = exprStr(ifs.Cond)
+			}
+		}
+		r.Check(cond == "", rule, pa.Name(), fmt.Sprintf("Column update #%d is unconditional within its character case", n), c.pos(x.Pos()),
+			"the column increment is skipped under `"+cond+"`: the character right after a tab does not count, so `\\t` and `\\t ` before a token give the same column and an inserted blank does not move the diagnostic")
+		return true
+	})
+	r.Floor(rule, n, 3, "Column updates in Position.Advance")
+}
+
+// ---- C15.R8 / R9: repeated imports and import-path keys -----------------------------------------------------
+
+func init() {
+	lateInits = append(lateInits, func() {
+		props["C15"].Quick = append(props["C15"].Quick, c15R8, c15R9)
+		props["C15"].Explanation += " (R8) the duplicate-alias error of collectImport fires only when the name is bound to a different import path. (R9) every function that uses an import statement's path as a module key passes it through fs.NormalizePath, and NormalizePath collapses '//' and drops '.' segments, so discovery and symbol collection agree on the key and one file is one module."
+	})
+}
+
+func c15R8(c *Ctx, r *Report) {
+	const rule = "C15.R8"
+	r.Describe(rule, "collector.collectImport: the ErrRedeclaredSymbol diagnostic for an import alias is reported only on a path where the previously bound import path was compared with the new one")
+	fn := c.LookupFn("internal/semantics/collector", "collectImport")
+	aliasMap := c.fieldObj("internal/context_v2", "Module", "ImportAliasMap")
+	if !r.Anchor(rule, fn != nil && aliasMap != nil, "collector.collectImport / Module.ImportAliasMap") {
+		return
+	}
+	info := fn.Info()
+	// variables bound from mod.ImportAliasMap[alias]
+	old := map[types.Object]bool{}
+	ast.Inspect(fn.Decl.Body, func(x ast.Node) bool {
+		if as, ok := x.(*ast.AssignStmt); ok && len(as.Rhs) == 1 {
+			if ix, ok := ast.Unparen(as.Rhs[0]).(*ast.IndexExpr); ok && fieldOf(info, ix.X) == aliasMap && len(as.Lhs) >= 1 {
+				if o := objOf(info, as.Lhs[0]); o != nil {
+					old[o] = true
+				}
+			}
+		}
+		return true
+	})
+	comparesPath := func(e ast.Expr) bool {
+		found := false
+		ast.Inspect(e, func(y ast.Node) bool {
+			if be, ok := y.(*ast.BinaryExpr); ok && (be.Op == token.EQL || be.Op == token.NEQ) {
+				for o := range old {
+					if mentionsVar(info, be.X, o) || mentionsVar(info, be.Y, o) {
+						found = true
+					}
+				}
+			}
+			return true
+		})
+		return found
+	}
+	n := 0
+	walkWithStack(fn.Decl.Body, func(x ast.Node, stack []ast.Node) bool {
+		lit, ok := x.(*ast.BasicLit)
+		if !ok {
+			return true
+		}
+		v := constOf(info, lit)
+		if v == nil || v.Kind() != constant.String || !strings.Contains(constant.StringVal(v), "duplicate import alias") {
+			return true
+		}
+		n++
+		// some enclosing if / else-if chain must have compared the old path
+		compared := false
+		for _, a := range stack {
+			if ifs, ok := a.(*ast.IfStmt); ok {
+				if comparesPath(ifs.Cond) {
+					compared = true
+				}
+				// `if … && old == new { } else if exists { report }`: the report sits in the else of the comparing if
+				if ifs.Else != nil && containsNode(ifs.Else, lit) && comparesPath(ifs.Cond) {
+					compared = true
+				}
+			}
+		}
+		r.Check(compared, rule, fn.Name(), "duplicate-alias error only for a different import path", c.pos(lit.Pos()),
+			"`import \"rep/a\"; import \"rep/a\";` is rejected with T0003 although both statements name the same module: a repeated import must compile")
+		return true
+	})
+	r.Floor(rule, n, 1, "duplicate import alias diagnostics")
+}
+
+func c15R9(c *Ctx, r *Report) {
+	const rule = "C15.R9"
+	r.Describe(rule, "every function outside hir/gen that reads ImportStmt.Path.Value calls fs.NormalizePath on it; NormalizePath loops on \"//\" and filters \".\" segments")
+	norm := c.LookupFn("internal/utils/fs", "NormalizePath")
+	pathF := c.fieldObj("internal/frontend/ast", "ImportStmt", "Path")
+	if !r.Anchor(rule, norm != nil && pathF != nil, "fs.NormalizePath / ast.ImportStmt.Path") {
+		return
+	}
+	n := 0
+	for _, p := range c.Pkgs {
+		rel := relOf(p.PkgPath)
+		if rel == "internal/hir/gen" || rel == "internal/frontend/parser" || rel == "internal/frontend/ast" {
+			continue // hir/gen copies the text for display; the parser builds the node
+		}
+		for _, fn := range c.AllFns(rel) {
+			info := fn.Info()
+			reads := false
+			var at token.Pos
+			ast.Inspect(fn.Decl.Body, func(x ast.Node) bool {
+				if sel, ok := x.(*ast.SelectorExpr); ok && sel.Sel.Name == "Value" {
+					if fieldOf(info, sel.X) == pathF {
+						reads = true
+						at = sel.Pos()
+					}
+				}
+				return true
+			})
+			if !reads {
+				continue
+			}
+			n++
+			r.Check(nodeCallsDeep(info, fn.Decl.Body, norm.Obj), rule, fn.Name(), "import path normalised before it is used as a module key", c.pos(at),
+				"the raw text of the import path is used as a key: `import \"dsl//a\"` is discovered as dsl/a but looked up as dsl//a ('imported module not found … compiler bug'), and spelling variants of one file become distinct modules")
+		}
+	}
+	r.Floor(rule, n, 2, "readers of ImportStmt.Path.Value")
+	ninfo := norm.Info()
+	hasDot, hasDbl := false, false
+	ast.Inspect(norm.Decl.Body, func(x ast.Node) bool {
+		if be, ok := x.(*ast.BinaryExpr); ok && (be.Op == token.NEQ || be.Op == token.EQL) {
+			for _, e := range []ast.Expr{be.X, be.Y} {
+				if v := constOf(ninfo, e); v != nil && v.Kind() == constant.String && constant.StringVal(v) == "." {
+					hasDot = true
+				}
+			}
+		}
+		if fs, ok := x.(*ast.ForStmt); ok && fs.Cond != nil {
+			ast.Inspect(fs.Cond, func(y ast.Node) bool {
+				if bl, ok := y.(*ast.BasicLit); ok {
+					if v := constOf(ninfo, bl); v != nil && v.Kind() == constant.String && constant.StringVal(v) == "//" {
+						hasDbl = true
+					}
+				}
+				return true
+			})
+		}
+		return true
+	})
+	r.Check(hasDbl, rule, norm.Name(), "collapses repeated slashes until none is left", c.pos(norm.Decl.Pos()), "a//b and a/b name different modules")
+	r.Check(hasDot, rule, norm.Name(), "drops '.' segments", c.pos(norm.Decl.Pos()), "`dot/./leaf` and `dot/leaf` load the same file as two modules, which is then processed twice")
+}
